@@ -98,7 +98,7 @@ def stage_traces(report):
                            "pairs": [[ri, li] for ri in with_macros[:12] for li in range(0, len(listings), 6)]}, tag="selfstage")
     good = next(o for o in obs if o["events"][-1] == {"ev": "Return", "result": True}
                 and sum(e["ev"] == "MacroPass" for e in o["events"]) >= 2)
-    base = {"d": good["r"] + 1, "l": good["l"] + 1, "events": good["events"]}
+    base = {"u": 1, "d": good["r"] + 1, "l": good["l"] + 1, "events": good["events"]}
     variants = [("uncorrupted stage trace", base, "ok:found")]
 
     def corrupt(name, fn, expect):
